@@ -576,18 +576,19 @@ Proof.
     - intros; discriminate. }
   cbn [res_builtAt res_sig]. fold r. fold s1.
   destruct (N.eqb (res_builtAt r0) 0).
-  { eapply G; [reflexivity|]. now apply run_frame. }
+  { eapply G; [|apply run_frame; [exact Hnd1 | exact Hns]]. reflexivity. }
   destruct (flagged s1 k).
-  { eapply G; [reflexivity|]. now apply run_frame. }
+  { eapply G; [|apply run_frame; [exact Hnd1 | exact Hns]]. reflexivity. }
   destruct (negb (N.eqb (r_sig (rules k)) (res_sig r0))).
-  { eapply G; [reflexivity|]. now apply run_frame. }
+  { eapply G; [|apply run_frame; [exact Hnd1 | exact Hns]]. reflexivity. }
   destruct (negb (valid rules env k r)).
   { eapply G with (e := EValid k false); [reflexivity|].
     set (s2 := emit s1 (EValid k false)).
     assert (R : frame stack (emit s2 (ENeed k InvalidValue None)) k
-                  (run rules env F order ens k stack r (emit s2 (ENeed k InvalidValue None)))) by now apply run_frame.
+                  (run rules env F order ens k stack r (emit s2 (ENeed k InvalidValue None))))
+      by (apply run_frame; [exact Hnd1 | exact Hns]).
     destruct R as [R1 R2]. split; [|exact R2]. eapply frame_o_trans; [|exact R1]. now apply frame_emit. }
-  eapply G; [reflexivity|]. now apply scan_frame.
+  eapply G; [|apply scan_frame; [exact Hnd1 | exact Hns]]. reflexivity.
 Qed.
 
 End Frame.
